@@ -59,12 +59,18 @@ def pick_flags(rng, wl, cli):
         elif o == 'transformers' and 'numeric' in kinds and hdr[kinds.index('numeric')] != label:
             wl['source'] = 'ob-csv'
             wl['float_cols'] = [h for h, kd in zip(hdr, kinds) if kd == 'numeric' and h != label][:2]
-            cli['transformers'] = rng.choice(['default', 'minimal', 'fw-transformers'])
+            cli['transformers'] = rng.choice(['default', 'minimal'])
             cli['target_ranking_only'] = 'True'
             flags.append(o)
         elif o == 'pairwise':
             cli['target_ranking_only'] = 'False'
             flags.append(o)
+    if 'transformers' in flags:
+        # keep the constructed feature space small: no interaction / relation features on top of transformed ones
+        cli.pop('interaction_order', None)
+        if cli.get('heuristic') == 'MI-numba-3mr':
+            cli['heuristic'] = 'MI-numba-randomized'
+        flags[:] = [f for f in flags if f not in ('inter', '3mr')]
     if 'focus' in flags and 'multi' in flags and cli['explode_multivalue_features'] not in cli['feature_set_focus'].split(','):
         cli['feature_set_focus'] += ',' + cli['explode_multivalue_features']
     if 'focus' in flags and 'sub' in flags:
@@ -286,7 +292,7 @@ def run(args):
                        'combination_estimation_counts.json key order follows set iteration and is compared only between identical repeats']
     if args.replay:
         return replay(args)
-    budget = args.budget or (60 if args.tier == 'quick' else 900)
+    budget = args.budget or (45 if args.tier == 'quick' else 900)
     hs = [0, 1, 2, 3] if args.tier == 'quick' else [0, 1, 2, 3, 4, 5, 6, 7]
     pool = common.ZygotePool(hashseeds=hs)
     rep.hashseeds.update(hs)
